@@ -224,6 +224,26 @@ def run(ctx) -> None:
                 out.append(sdefs[x.id])
         return out
 
+    # the MAC helper authenticates everything it is given: secret, entry key and payload all flow into the hmac call
+    # (a digest over the payload alone lets a valid record be replayed under another key)
+    mh = db.maybe_func("cache._compute_hmac_bytes")
+    if mh is None:
+        raise AnalysisError("cache._compute_hmac_bytes vanished")
+    mcalls = [c for c in db.calls_in(mh) if (dotted(c.func) or "") in ("hmac.new", "hmac.digest", "hmac.HMAC")]
+    flow: set[str] = set()
+    for c in mcalls:
+        todo = [x.id for a in list(c.args) + [k.value for k in c.keywords] for x in ast.walk(a) if isinstance(x, ast.Name)]
+        while todo:
+            nm = todo.pop()
+            if nm in flow:
+                continue
+            flow.add(nm)
+            for d in db.local_defs(mh).get(nm, []):
+                v = getattr(d, "value", None)
+                if v is not None:
+                    todo += [x.id for x in ast.walk(v) if isinstance(x, ast.Name)]
+    missing = [p_ for p_ in mh.param_names if p_ not in flow]
+    rep.add("C09.R2", f"{mh.qname}:covers-key-and-payload", bool(mcalls) and not missing, mh.loc(), "secret, entry key and payload all flow into the HMAC" if mcalls and not missing else f"parameter(s) {missing} of the MAC helper do not reach the hmac call: the signature no longer binds the payload to the key it was stored under, so a valid (payload, signature) pair copied over another entry verifies and is served for the wrong arguments")
     cmp_tests = [n for n in gcfg.nodes if n.kind == "test" and any(isinstance(c, ast.Call) and dotted(c.func) == "hmac.compare_digest" for e in _expanded(n.ast) for c in ast.walk(e))]
     for i, (ln, lc) in enumerate(loads):
         ok = bool(cmp_tests)
@@ -469,6 +489,7 @@ CH = "src/hypergraph/cache.py"
 SS = "src/hypergraph/runners/sync/superstep.py"
 AS = "src/hypergraph/runners/async_/superstep.py"
 VARIANTS = [
+    Variant("hmac-over-payload-only", CH, replace_once("    msg = cache_key.encode() + raw_bytes\n", "    msg = raw_bytes\n"), {"C09.R2"}),
     Variant("cached-decision-frozen-to-tuple", CA, replace_once("            to_cache[_ROUTING_DECISION_KEY] = decision", "            to_cache[_ROUTING_DECISION_KEY] = tuple(decision) if isinstance(decision, list) else decision"), {"C09.R7"}),
     Variant("key-without-outputs", CA, replace_once("{node.data_outputs!r}:{node.outputs!r}:", ""), {"C09.R1"}),
     Variant("key-on-renamed-inputs", CA, replace_once("cache_key = compute_cache_key(identity, node.map_inputs_to_params(inputs))", "cache_key = compute_cache_key(identity, inputs)"), {"C09.R1"}),
